@@ -410,3 +410,8 @@ func TestC03(t *testing.T) {
 	})
 	c03File(r)
 }
+
+// FuzzC03 lets the coverage-guided fuzzer drive the tracker-level generator.
+func FuzzC03(f *testing.F) {
+	f.Fuzz(rapid.MakeFuzz(ev.FuzzProp("C03", ev.Sub[c3Case]{Name: "tracker", Gen: genC03Tracker, Oracle: oracleC03Tracker})))
+}
